@@ -34,11 +34,15 @@ DestsOf(mode) == IF mode = "file" THEN FileDests ELSE IF mode \in {"dir", "defau
                  ELSE IF mode = "stdout" THEN StdoutDests ELSE {"na"}
 \* the shape of the text with respect to line buffering
 \* (a rest that does not fit into the stream's buffer is not buffered: it goes to the descriptor at once)
-Shapes == {"ends_in_newline", "newline_and_small_rest", "newline_and_large_rest", "small_no_newline", "large_no_newline"}
+\* "no_text": the text is the empty string (a module without assignments, TypeScript backend): nothing is written to a stream --
+\* so an unwritable stream is no obstacle and standard output stays empty, which IS the text --, while a file destination is
+\* still opened (create, truncate): it exists afterwards and is empty, and an unwritable one is an Err
+Shapes == {"ends_in_newline", "newline_and_small_rest", "newline_and_large_rest", "small_no_newline", "large_no_newline", "no_text"}
 HasLines(sh) == sh \in {"ends_in_newline", "newline_and_small_rest", "newline_and_large_rest"}
 SmallRest(sh) == sh \in {"newline_and_small_rest", "small_no_newline"}
+NoText(sh) == sh = "no_text"
 \* does write_all put bytes on the descriptor itself?
-WritesThrough(sh) == HasLines(sh) \/ ~SmallRest(sh)
+WritesThrough(sh) == sh # "no_text" /\ (HasLines(sh) \/ ~SmallRest(sh))
 CONSTANT FlushBeforeReturn
 \* The rasn backend pipes the text through a rustfmt it finds next to cargo.  Formatting is cosmetic: a formatter that is
 \* absent, or found but failing (exit status other than 0 / 3, a proxy without the component), leaves the text as generated
@@ -47,6 +51,9 @@ CONSTANT FlushBeforeReturn
 \* formatter's failure as the call's Err *after* the text has been delivered -- refuted below: an Err must carry nothing.
 Formatters == {"absent", "identity", "fails"}
 CONSTANT FormatErrorSurfaces
+\* SkipWhenSame is the design that leaves "up-to-date" bindings alone (C20-m7): the destination is read first -- an unreadable one
+\* counts as empty -- and when that equals the text the call returns Ok without opening it.  Refuted below for the empty text.
+CONSTANT SkipWhenSame
 Inputs == {"good", "malformed", "missing_source"}
 
 \* the file the text goes to: the given path, or generated.<ext> inside the given directory
@@ -60,14 +67,14 @@ StreamTakes(dest) == dest = "na"
 
 --------------------------------------------------------------------------------
 (* what the property demands, as a function of the scenario *)
-Result(mode, dest, compiled) ==
+Result(mode, dest, compiled, sh) ==
     IF compiled # "ok" THEN "err"
     ELSE IF ToFile(mode) /\ ~Writable(dest) THEN "err"
-    ELSE IF mode = "stdout" /\ ~StreamTakes(dest) THEN "err"
+    ELSE IF mode = "stdout" /\ ~StreamTakes(dest) /\ ~NoText(sh) THEN "err"
     ELSE "ok"
-TargetAfter(mode, dest, compiled) ==
-    IF Result(mode, dest, compiled) = "ok" /\ ToFile(mode) THEN "NEW" ELSE TargetBefore(dest)
-Stdout(mode, dest, compiled) == IF mode = "stdout" /\ compiled = "ok" /\ StreamTakes(dest) THEN "NEW" ELSE "empty"
+TargetAfter(mode, dest, compiled, sh) ==
+    IF Result(mode, dest, compiled, sh) = "ok" /\ ToFile(mode) THEN "NEW" ELSE TargetBefore(dest)
+Stdout(mode, dest, compiled, sh) == IF mode = "stdout" /\ compiled = "ok" /\ StreamTakes(dest) /\ ~NoText(sh) THEN "NEW" ELSE "empty"
 
 --------------------------------------------------------------------------------
 (* compile() as the code performs it *)
@@ -82,7 +89,7 @@ Final == IF FormatErrorSurfaces /\ fmt = "fails" THEN "err" ELSE "ok"
 Init == /\ mode \in Modes /\ dest \in DestsOf(mode) /\ input \in Inputs
         /\ pc = "start" /\ compiled = "?" /\ target = TargetBefore(dest) /\ others = "same"
         /\ stdout = "empty" /\ result = "?"
-        /\ shape \in (IF mode = "stdout" THEN Shapes ELSE {"ends_in_newline"}) /\ buffered = FALSE
+        /\ shape \in (IF mode = "stdout" THEN Shapes ELSE {"ends_in_newline", "no_text"}) /\ buffered = FALSE
         /\ fmt \in Formatters
 \* internal_compile()?  -- `?' returns before output_generated is reached
 InternalCompile ==
@@ -91,8 +98,14 @@ InternalCompile ==
     /\ IF input = "good" THEN pc' = "deliver" /\ UNCHANGED result ELSE pc' = "done" /\ result' = "err"
     /\ UNCHANGED <<mode, dest, input, target, others, stdout, shape, buffered, fmt>>
 \* fs::write(path) = open(create, truncate) ...
+\* (SkipWhenSame only) the destination reads as the text already: nothing to do
+LooksUpToDate == SkipWhenSame /\ NoText(shape) /\ TargetBefore(dest) = "absent"
+SkipUpToDate ==
+    /\ pc = "deliver" /\ ToFile(mode) /\ LooksUpToDate
+    /\ pc' = "done" /\ result' = Final
+    /\ UNCHANGED <<mode, dest, input, compiled, target, others, stdout, shape, buffered, fmt>>
 Open ==
-    /\ pc = "deliver" /\ ToFile(mode)
+    /\ pc = "deliver" /\ ToFile(mode) /\ ~LooksUpToDate
     /\ IF Writable(dest) THEN pc' = "write" /\ target' = "EMPTY" /\ UNCHANGED result
        ELSE pc' = "done" /\ result' = "err" /\ UNCHANGED target
     /\ UNCHANGED <<mode, dest, input, compiled, others, stdout, shape, buffered, fmt>>
@@ -107,7 +120,7 @@ ToStdout ==
     /\ pc = "deliver" /\ mode = "stdout"
     /\ IF WritesThrough(shape) /\ ~StreamTakes(dest)
        THEN pc' = "done" /\ result' = "err" /\ UNCHANGED <<stdout, buffered>>
-       ELSE /\ stdout' = IF ~SmallRest(shape) THEN "NEW" ELSE IF HasLines(shape) THEN "PREFIX" ELSE "empty"
+       ELSE /\ stdout' = IF NoText(shape) THEN "empty" ELSE IF ~SmallRest(shape) THEN "NEW" ELSE IF HasLines(shape) THEN "PREFIX" ELSE "empty"
             /\ buffered' = SmallRest(shape)
             /\ IF FlushBeforeReturn THEN pc' = "flush" /\ UNCHANGED result
                ELSE pc' = "done" /\ result' = Final
@@ -129,15 +142,15 @@ Nowhere ==
     /\ pc = "deliver" /\ mode = "none"
     /\ pc' = "done" /\ result' = Final
     /\ UNCHANGED <<mode, dest, input, compiled, target, others, stdout, shape, buffered, fmt>>
-Next == InternalCompile \/ Open \/ Write \/ ToStdout \/ FlushStdout \/ ProcessExit \/ Nowhere
+Next == InternalCompile \/ SkipUpToDate \/ Open \/ Write \/ ToStdout \/ FlushStdout \/ ProcessExit \/ Nowhere
 Spec == Init /\ [][Next]_vars
 
 --------------------------------------------------------------------------------
 Done == pc = "done" /\ ~buffered      \* the call has returned and the process has let go of its buffer
 \* the machine delivers what the property demands
-MeetsDemand == Done => /\ result = Result(mode, dest, compiled)
-                       /\ target = TargetAfter(mode, dest, compiled)
-                       /\ stdout = Stdout(mode, dest, compiled)
+MeetsDemand == Done => /\ result = Result(mode, dest, compiled, shape)
+                       /\ target = TargetAfter(mode, dest, compiled, shape)
+                       /\ stdout = Stdout(mode, dest, compiled, shape)
                        /\ others = "same"
 \* "when compilation fails nothing is written or overwritten"
 NothingOnFailure == (Done /\ compiled = "err") => target = TargetBefore(dest) /\ stdout = "empty" /\ others = "same"
@@ -145,11 +158,11 @@ NothingOnFailure == (Done /\ compiled = "err") => target = TargetBefore(dest) /\
 ExactOnSuccess == (Done /\ result = "ok" /\ ToFile(mode)) => target = "NEW"
 \* an unwritable destination is an Err and leaves the destination as it was
 UnwritableIsErr == /\ (Done /\ compiled = "ok" /\ ToFile(mode) /\ ~Writable(dest)) => result = "err" /\ target = TargetBefore(dest)
-                   /\ (Done /\ compiled = "ok" /\ mode = "stdout" /\ ~StreamTakes(dest)) => result = "err"
+                   /\ (Done /\ compiled = "ok" /\ mode = "stdout" /\ ~StreamTakes(dest) /\ ~NoText(shape)) => result = "err"
 \* an Err carries nothing: whatever made the call fail, the destination is as it was and nothing went to standard output
 ErrMeansNothing == (Done /\ result = "err") => target = TargetBefore(dest) /\ stdout = "empty" /\ others = "same"
 \* Ok means delivered: whoever reads the stream after an Ok has the whole text
-OkMeansDelivered == (Done /\ result = "ok" /\ mode = "stdout") => stdout = "NEW"
+OkMeansDelivered == (Done /\ result = "ok" /\ mode = "stdout") => stdout = (IF NoText(shape) THEN "empty" ELSE "NEW")
 \* the window in which the destination holds neither the old nor the new text exists only between Open and Write
 Torn == target = "EMPTY" => pc = "write"
 =============================================================================
